@@ -1379,16 +1379,16 @@ pub fn property() -> Property {
             "Known findings F1/F2 (alpha index keyed by Debug rendering: ±0.0, NaN) and F3 (memo key blind to value type) are excluded from generation unless no_exclusions is set".into(),
         ],
         parts: vec![
-            Part { name: "alpha", run: run_alpha, quick: Budget::Random { cases: 3_000_000, bytes: 96 }, thorough: Budget::Random { cases: 18_000_000, bytes: 96 }, min_nontrivial_pct: 8 },
+            Part { name: "alpha", run: run_alpha, quick: Budget::Random { cases: 3_000_000, bytes: 96 }, thorough: Budget::Random { cases: 40_000_000, bytes: 96 }, min_nontrivial_pct: 8 },
             Part { name: "alpha-exh4", run: run_alpha, quick: Budget::Exhaustive { param: 4 }, thorough: Budget::Exhaustive { param: 4 }, min_nontrivial_pct: 0 },
             Part { name: "alpha-exh5", run: run_alpha, quick: Budget::Exhaustive { param: 5 }, thorough: Budget::Exhaustive { param: 5 }, min_nontrivial_pct: 0 },
             Part { name: "alpha-exh6", run: run_alpha, quick: Budget::Skip, thorough: Budget::Exhaustive { param: 6 }, min_nontrivial_pct: 0 },
-            Part { name: "beta", run: run_beta, quick: Budget::Random { cases: 2_000_000, bytes: 96 }, thorough: Budget::Random { cases: 12_000_000, bytes: 96 }, min_nontrivial_pct: 8 },
+            Part { name: "beta", run: run_beta, quick: Budget::Random { cases: 2_000_000, bytes: 96 }, thorough: Budget::Random { cases: 30_000_000, bytes: 96 }, min_nontrivial_pct: 8 },
             Part { name: "beta-exh5", run: run_beta, quick: Budget::Exhaustive { param: 5 }, thorough: Budget::Exhaustive { param: 5 }, min_nontrivial_pct: 0 },
             Part { name: "beta-exh6", run: run_beta, quick: Budget::Skip, thorough: Budget::Exhaustive { param: 6 }, min_nontrivial_pct: 0 },
-            Part { name: "memo", run: run_memo, quick: Budget::Random { cases: 2_000_000, bytes: 96 }, thorough: Budget::Random { cases: 12_000_000, bytes: 96 }, min_nontrivial_pct: 8 },
-            Part { name: "conclusion", run: run_conclusion, quick: Budget::Random { cases: 2_000_000, bytes: 96 }, thorough: Budget::Random { cases: 12_000_000, bytes: 96 }, min_nontrivial_pct: 5 },
-            Part { name: "engine", run: run_engine, quick: Budget::Random { cases: 1_000_000, bytes: 96 }, thorough: Budget::Random { cases: 6_000_000, bytes: 96 }, min_nontrivial_pct: 5 },
+            Part { name: "memo", run: run_memo, quick: Budget::Random { cases: 2_000_000, bytes: 96 }, thorough: Budget::Random { cases: 30_000_000, bytes: 96 }, min_nontrivial_pct: 8 },
+            Part { name: "conclusion", run: run_conclusion, quick: Budget::Random { cases: 2_000_000, bytes: 96 }, thorough: Budget::Random { cases: 30_000_000, bytes: 96 }, min_nontrivial_pct: 5 },
+            Part { name: "engine", run: run_engine, quick: Budget::Random { cases: 1_000_000, bytes: 96 }, thorough: Budget::Random { cases: 15_000_000, bytes: 96 }, min_nontrivial_pct: 5 },
         ],
         watchdog: true,
         replay_reps: 1,
